@@ -1140,6 +1140,7 @@ qh::GenOptions genOptionsFor(const std::string& property, sim::Rng& knob) {
     go.tracked = knob.chance(0.3);
     if (property == "C04") go.aliasProb = knob.chance(0.3) ? 0.12 : 0.0;
     if (property == "C06") go.aliasProb = knob.chance(0.25) ? 0.1 : 0.0;
+    if (property == "C06" || property == "C05") go.argEffectProb = knob.chance(0.3) ? 0.04 : 0.0;
     if (property == "C05") go.hugeLoopProb = knob.chance(0.00006) ? 0.5 : 0.0;
     if (property == "C03" || property == "C05" || property == "C06") go.nonFiniteAngleProb = knob.chance(0.3) ? 0.01 : 0.0;
     if (property == "C03") { go.aliasProb = knob.chance(0.1) ? 0.12 : 0.0; go.cycleProb = knob.chance(0.4) ? 0.1 : 0.0; go.portProb = knob.chance(0.25) ? 0.1 : 0.0; }
@@ -1333,6 +1334,7 @@ void runOne(const sim::Options& opt, uint64_t run, sim::RunReport& rep) {
         if (f.owner != property) rep.count("prog.foreign_findings");
     for (auto& o : plan.ops) rep.count(std::string("op.") + qh::kindName(o.kind));
     for (auto& o : plan.ops) if (o.kind == qh::GATE && o.loop >= 2) rep.count("op.gate_in_for_loop");
+    for (auto& o : plan.ops) if (o.kind == qh::GATE && o.argEffect) rep.count(o.argEffect == 1 ? "op.rotation_whose_angle_argument_resets_the_target" : "op.rotation_whose_angle_argument_measures_the_target");
     for (auto& o : plan.ops) if (o.kind == qh::GATE && o.loop > 1000) rep.count("op.gate_in_loop_of_more_than_2^20_iterations");
     for (auto& o : plan.ops) if ((o.kind == qh::GATE || o.kind == qh::IFGATE) && o.gate >= 4 && qh::angleComputed(o)) rep.count("op.rotation_by_non_finite_angle");
     if (cls == "harness_rejected") {
